@@ -575,6 +575,11 @@ class Index:
                     for m in c.body:
                         if isinstance(m, ast.FunctionDef):
                             by_name.setdefault(m.name, []).append(m)
+        for mi in self.modules.values():
+            for m in mi.tree.body:
+                if isinstance(m, ast.FunctionDef):
+                    m._module_level = True  # type: ignore[attr-defined]
+                    by_name.setdefault(m.name, []).append(m)
         preds: Dict[str, ast.FunctionDef] = {}
         from .normalform import rule_names
         known = rule_names()
@@ -587,7 +592,8 @@ class Index:
                 continue
             body = [st for st in m.body if not (isinstance(st, ast.Expr) and isinstance(st.value, ast.Constant))]
             if len(body) == 1 and isinstance(body[0], ast.Return) and isinstance(body[0].value, (ast.BoolOp, ast.Compare, ast.UnaryOp)) \
-                    and not any(isinstance(x, (ast.Lambda, ast.NamedExpr, ast.Await, ast.Yield)) for x in ast.walk(body[0].value)):
+                    and not any(isinstance(x, (ast.Lambda, ast.NamedExpr, ast.Await, ast.Yield)) for x in ast.walk(body[0].value)) \
+                    and not (getattr(m, "_module_level", False) and any(isinstance(x, ast.Call) for x in ast.walk(body[0].value))):
                 preds[nm] = m
         _cfg.set_predicates(preds)
         self.predicates = sorted(preds)
